@@ -1505,6 +1505,67 @@ pub fn fam_optimise2(seed: u64, tier: &str, index: u64) -> Scenario {
     Scenario { fam: "optimise2".into(), id: index, opts, steps: g.steps, engine: index % 4 == 0 }
 }
 
+/// `cumholes` (C17, C08): the explanations of the cumulative propagators on long profiles. 3-4
+/// tasks with durations 2-4 and start ranges that span a profile on both sides (width 6-8),
+/// capacity 1-2, the option combination index-driven but biased to hole propagation
+/// (`allow_holes_in_domain`), all three explanation types and all six methods; unary clauses move
+/// bounds after posting and a search order that fixes one task in the middle moves the start of a
+/// profile by a decision. Every engine event is recorded: each reason is judged for entailment.
+pub fn fam_cumholes(seed: u64, tier: &str, index: u64) -> Scenario {
+    let mut g = Gen::new(rng_for(seed, "cumholes", index), params(tier));
+    let all = CumOpts::all();
+    let mut copts = all[(index as usize) % all.len()];
+    if index % 4 != 3 {
+        copts.holes = true;
+    }
+    let ntasks = if tier == "thorough" && g.rng.gen_bool(0.3) { 4 } else { 3 };
+    let mut starts = vec![];
+    let mut d = vec![];
+    let mut r = vec![];
+    for t in 0..ntasks {
+        let w = g.rng.gen_range(5..=if ntasks == 3 { 7 } else { 6 });
+        let lo = g.rng.gen_range(-1..=2);
+        let v = g.add_int_var_with((lo..lo + w).collect(), false);
+        starts.push(View::var(v));
+        d.push(if t == 0 { g.rng.gen_range(3..=4) } else { g.rng.gen_range(1..=4) });
+        r.push(g.rng.gen_range(1..=2));
+    }
+    let cap = g.rng.gen_range(1..=2).max(*r.iter().max().unwrap());
+    g.post(Cons::Cumulative { s: starts.clone(), d, r, cap, opts: copts }, false);
+    // a zero-one variable and clauses that tie it to bounds of the tasks: conflicts whose analysis
+    // goes through propagated holes and bounds
+    let b = g.add_int_var_with(vec![0, 1], false);
+    for _ in 0..g.rng.gen_range(1..=3) {
+        let x = starts[g.rng.gen_range(0..starts.len())];
+        let vals = g.info(x.v).vals.clone();
+        let k = vals[g.rng.gen_range(1..vals.len() - 1)];
+        let p = Pred { x, op: *[Op::Ge, Op::Le, Op::Ne, Op::Eq].choose(&mut g.rng).unwrap(), k };
+        let q = Pred { x: View::var(b), op: if g.rng.gen_bool(0.5) { Op::Ge } else { Op::Le }, k: g.rng.gen_range(0..=1) };
+        g.post(Cons::Clause { ps: vec![p, q] }, false);
+    }
+    if g.rng.gen_bool(0.4) {
+        let k = *["lin_le", "bin_lt", "lin_ne"].choose(&mut g.rng).unwrap();
+        let c2 = g.cons_of_kind(k);
+        g.post(c2, false);
+    }
+    let br = match g.rng.gen_range(0..4) {
+        0 => BrSpec { kind: "indep".into(), var: 2, val: 2 },        // input order, median: a task fixed in the middle
+        1 => BrSpec { kind: "indep".into(), var: 2, val: g.rng.gen_range(0..NUM_VAL_SEL) },
+        _ => g.random_brancher(),
+    };
+    // (the first 40 solutions only: every reason is judged when it is given, not at the end)
+    g.steps.push(Step::Iterate { br, max: 40, stop_at: None, resume: false });
+    let mut opts = if g.rng.gen_bool(0.5) { Opts::default() } else { g.random_opts() };
+    opts.resolver = "uip".into();
+    if g.rng.gen_bool(0.7) {
+        opts.minimise = true;
+    }
+    if opts.restart_base <= 3 && opts.high_lbd_limit <= 4 {
+        opts.high_lbd_limit = 4000;
+    }
+    Scenario { fam: "cumholes".into(), id: index, opts, steps: g.steps, engine: true }
+}
+
 /// `reif`: one constraint of the catalogue (index-driven kind) posted half-reified, reified or
 /// negated, with the reification literal free / forced before / forced after posting, all
 /// solutions iterated (C09).
@@ -2319,6 +2380,7 @@ pub fn generate(fam: &str, seed: u64, tier: &str, index: u64) -> Scenario {
         "iterate2" => fam_iterate2(seed, tier, index),
         "eqdecide" => fam_eqdecide(seed, tier, index),
         "optimise2" => fam_optimise2(seed, tier, index),
+        "cumholes" => fam_cumholes(seed, tier, index),
         "rootbounds" => fam_rootbounds(seed, tier, index),
         "interrupt_base" => fam_interrupt_base(seed, tier, index),
         other => panic!("harness: unknown family {other}"),
